@@ -44,6 +44,8 @@ Prefixes(env) ==
   ELSE (IF Slim THEN { <<>>, Rep("i64", 8) \o Rep("f64", 8), Rep("i32", 9) }
         ELSE { <<>>, Rep("i64", 8), Rep("f64", 8), Rep("i64", 8) \o Rep("f64", 8), Rep("i32", 9) })
 
+RetTypes(env) == TypesOf(env) \cup {"u8", "i16", "u32", "f64x2", "f32x8"}
+
 Themes == [ ints |-> {"i32", "i64", "i8"}, fps |-> {"f32", "f64"}, vecs |-> {"f32x4", "f64", "i64"},
             odd |-> {"f32", "i32", "f32x4", "i64", "i16"}, wide |-> {"f64x4", "f32", "i32", "f32x16"},
             small |-> {"i8", "u16", "f32", "i32x2"} ]
